@@ -572,6 +572,133 @@ def _alias_source(fi, v, depth=8):
     return v
 
 
+_FLOAT64 = {'float', 'np.float64', 'np.double', 'np.float_', 'np.longdouble', 'np.float128', 'np.longfloat', 'numpy.float64',
+            "'float'", "'float64'", "'f8'", "'d'", "'double'", "'<f8'", "'=f8'", "'longdouble'", "'g'", 'np.dtype(float)',
+            "np.dtype('float64')", 'np.dtype(np.float64)', "np.dtype('f8')"}
+_NARROW_FLOAT = {'np.float32', 'np.float16', 'np.single', 'np.half', 'numpy.float32', 'numpy.float16', "'float32'", "'float16'",
+                 "'single'", "'half'", "'f4'", "'f2'", "'f'", "'e'", "'<f4'", "'=f4'", "'<f2'", "'=f2'", "np.dtype('float32')",
+                 'np.dtype(np.float32)', "np.dtype('f4')", "np.dtype('float16')", 'np.dtype(np.float16)'}
+_ALLOCATORS = {'np.zeros': 1, 'np.empty': 1, 'np.ones': 1, 'np.full': 2, 'np.zeros_like': 1, 'np.empty_like': 1,
+               'np.ones_like': 1, 'np.full_like': 2, 'np.repeat': None}
+
+
+def _alloc_dtype(v):
+    """Element type of the array an (expanded) allocation expression creates:
+    ('given', dtype node) - an explicit dtype; ('default', 'float64' | 'int' |
+    None) - no dtype argument: what numpy chooses (None: inherited from a
+    prototype / not known); None - `v` does not contain exactly one numpy
+    allocator call."""
+    calls = [c for c in ast.walk(v) if isinstance(c, ast.Call) and (call_name(c) or '').replace('numpy.', 'np.') in _ALLOCATORS]
+    if len(calls) != 1:
+        return None
+    c = calls[0]
+    cn = call_name(c).replace('numpy.', 'np.')
+    dpos = _ALLOCATORS[cn]
+    if any(isinstance(a, ast.Starred) for a in c.args) or any(k.arg is None for k in c.keywords):
+        return None
+    dt = None
+    for k in c.keywords:
+        if k.arg == 'dtype':
+            dt = k.value
+    if dt is None and dpos is not None and len(c.args) > dpos:
+        dt = c.args[dpos]
+    if dt is not None:
+        return ('given', dt)
+    if cn in ('np.zeros', 'np.empty', 'np.ones'):
+        return ('default', 'float64')
+    if cn in ('np.full', 'np.repeat'):
+        fill = None
+        if cn == 'np.full':
+            fill = c.args[1] if len(c.args) > 1 else next((k.value for k in c.keywords if k.arg == 'fill_value'), None)
+        else:
+            fill = c.args[0] if c.args else None
+        if fill is None:
+            return ('default', None)
+        if ct(fill) in [C(i) for i in INF] or isinstance(const_value(fill, default=None), float):
+            return ('default', 'float64')
+        cv = const_value(fill, default=None)
+        if isinstance(cv, int) and not isinstance(cv, bool):
+            return ('default', 'int')
+        return ('default', None)
+    return ('default', None)        # *_like without dtype: the prototype's element type
+
+
+def _d1_distance_dtype(ck, mod, fi, F, d0, name, v, metric):
+    """Representation of the running state: the array that receives the
+    metric's values, is compared with the next centre's values and is handed
+    back as "the distance" holds them in (at least) double precision.  The
+    metric is caller supplied and may compute in float64 (libdist euclidean /
+    manhattan, any callable on float64 features): a narrower buffer rounds
+    every stored distance (the reported distance is not the distance the
+    metric computed) and compares later centres against the rounded minimum
+    (two centres within the rounding resolve to the earlier, possibly
+    farther, one)."""
+    rule = 'C10.D1.init.dtype'
+    construct = 'element type of the distance array `%s`' % name
+    got = _alloc_dtype(v)
+    if got is None:
+        ck.missing(rule, 'allocator call of the distance array `%s` not recognised: %s' % (name, u(v)[:120]))
+        return
+    kind, dt = got
+    if kind == 'default':
+        if dt == 'float64':
+            ck.ok(rule, mod, d0, construct, 'numpy default: float64')
+        elif dt == 'int':
+            ck.bad(rule, mod, d0, F, construct, '`%s` allocates integer storage for the distances: every stored distance is truncated' % u(v)[:120])
+        else:
+            ck.missing(rule, 'element type of the distance array `%s` is inherited, not stated: %s' % (name, u(v)[:120]))
+        return
+    txt = ct(xp(fi, dt))
+    if txt in _FLOAT64:
+        ck.ok(rule, mod, d0, construct, 'double precision (%s)' % txt)
+    elif txt in _NARROW_FLOAT or txt in _WIDE_INT or (txt in _NOT_INDEX and txt not in _FLOAT64):
+        ck.bad(rule, mod, d0, F, construct,
+               'the array that stores, compares and reports the values returned by the caller-supplied metric `%s` is allocated with '
+               'dtype %s: a metric that computes in double precision (libdist euclidean/manhattan, any callable on float64 features) '
+               'has every distance rounded when it is stored - the reported distance is no longer the distance the metric computed for '
+               'the assigned (frame, centre) pair - and later centres are compared with the rounded running minimum (centres closer '
+               'than the rounding resolve to the earlier, possibly farther, one); the buffer must be float64 (dtype=float)' % (metric, txt))
+    else:
+        ck.missing(rule, 'dtype of the distance array `%s` not recognised: %s' % (name, txt[:80]))
+
+
+def _d1_label_dtype(ck, mod, fn, fi, F, lname, rets):
+    """The label array (first component of the result) stores centre indices
+    0..n_centres-1 for ANY number of centres: where it is allocated by a numpy
+    allocator, its element type is an index-wide integer."""
+    rule = 'C10.D1.labels.dtype'
+    construct = 'element type of the label array `%s`' % lname
+    sites = set()
+    for r in rets:
+        sites |= {d for d in fi.rd.defs_at(r, lname) if d not in ('PARAM', 'UNBOUND')}
+    for d in sorted(sites, key=lambda x: getattr(x, 'lineno', 0)):
+        raw = fi.def_value(d, lname) if isinstance(d, (ast.Assign, ast.AnnAssign)) else None
+        if raw is None:
+            continue
+        v = xp(fi, raw)
+        got = _alloc_dtype(v)
+        if got is None:
+            continue        # not built by an allocator (argmin result, list, ...): the commit obligations speak about it
+        kind, dt = got
+        if kind == 'default':
+            if dt == 'int':
+                ck.ok(rule, mod, d, construct, 'numpy default integer')
+            elif dt == 'float64':
+                ck.bad(rule, mod, d, F, construct, '`%s` allocates float64 storage (no dtype) for the centre labels: the function returns '
+                       'float values where centre indices are expected' % u(v)[:120])
+            else:
+                ck.missing(rule, 'element type of the label array `%s` is inherited, not stated: %s' % (lname, u(v)[:120]))
+            continue
+        txt = ct(xp(fi, dt))
+        if txt in _WIDE_INT:
+            ck.ok(rule, mod, d, construct, 'index-wide integer (%s)' % txt)
+        elif txt in _NOT_INDEX or txt in _NARROW_FLOAT or txt in _FLOAT64:
+            ck.bad(rule, mod, d, F, construct, 'the label array is allocated with dtype %s, which cannot hold the index of every centre '
+                   '(any number of centres is admitted: narrow integers wrap, floats are not indices)' % txt)
+        else:
+            ck.missing(rule, 'dtype of the label array `%s` not recognised: %s' % (lname, txt[:80]))
+
+
 def _d1_init(ck, mod, fn, fi, ps, loops):
     """The array returned as second component (the distances) is a PRIVATE
     array of this function, and a sweep that reads it while writing it (the
@@ -630,6 +757,20 @@ def _d1_init(ck, mod, fn, fi, ps, loops):
             e = by_site.setdefault(id(d), [d, [], False])
             e[1].append(l)
             e[2] = e[2] or reads
+    # --- what the exits hand back is the array the sweeps filled (not a converted / rebound successor of it), and the
+    #     label array that goes with it can hold every centre index
+    rets2 = [r for r in returns_of(fn) if isinstance(r.value, ast.Tuple) and len(r.value.elts) == 2 and
+             all(isinstance(e, ast.Name) for e in r.value.elts)]
+    for r in rets2:
+        if r.value.elts[1].id != name:
+            continue
+        later = [d for d in fi.rd.defs_at(r, name) if id(d) not in by_site]
+        if later:
+            ck.missing('C10.D1.exits', 'the distance array `%s` returned at %s is rebound after the sweeps filled it: %s' % (
+                name, mod.loc(r), u(later[0])[:100] if isinstance(later[0], ast.AST) else later[0]))
+    lnames = {r.value.elts[0].id for r in rets2}
+    if len(lnames) == 1:
+        _d1_label_dtype(ck, mod, fn, fi, F, next(iter(lnames)), rets2)
     full = []
     for inf in INF:
         full += ['np.full(_N, %s)' % inf, 'np.full(_N, %s, dtype=_T)' % inf, 'np.full(_N, %s, _T)' % inf,
@@ -655,8 +796,10 @@ def _d1_init(ck, mod, fn, fi, ps, loops):
         v = xp(fi, raw)
         if classify(v, full)[0] == 'match':
             ck.ok(rule, mod, d0, construct, 'running minimum starts at +inf')
+            _d1_distance_dtype(ck, mod, fi, F, d0, name, v, metric)
             continue
         if classify(v, allocs)[0] == 'match':
+            _d1_distance_dtype(ck, mod, fi, F, d0, name, v, metric)
             if not need_inf:
                 ck.ok(rule, mod, d0, '%s freshly allocated' % name,
                       'fresh array; the sweep only writes it (one entry per frame), nothing is read before it is written')
@@ -867,6 +1010,27 @@ def _split_ifexp(val):
     return tests[0].test, Pick(True).visit(copy.deepcopy(val)), Pick(False).visit(copy.deepcopy(val))
 
 
+_VALUE_KEEPING = _ALIASING + ('_C.copy()', 'np.copy(_C)', 'list(_C)', 'tuple(_C)', 'np.array(_C)', 'np.array(_C, dtype=_T)',
+                              '_C.tolist()', '_C.astype(_T)', 'copy.copy(_C)', 'copy.deepcopy(_C)', 'np.asarray(_C).copy()',
+                              '_C.flatten()')
+
+
+def _value_core(e, depth=8):
+    """`e` stripped of wrappers that keep every element value (views, copies,
+    container conversions): what is passed through."""
+    e = canon(e)
+    while depth > 0:
+        depth -= 1
+        for pat in _VALUE_KEEPING:
+            m = match(pat, e)
+            if m is not None:
+                e = m['_C']
+                break
+        else:
+            return e
+    return e
+
+
 def d2_partition(ck):
     rule = 'C10.D2.partition'
     F = 'ClusterResult.partition'
@@ -877,6 +1041,21 @@ def d2_partition(ck):
     L = params(fn)[1]
     ifs = [n for n in walk_local(fn) if isinstance(n, ast.If) and not _only_raises(n)]
     node = None
+    extra_exits = []
+    if len(ifs) > 1:
+        # the square/ragged decision is the `if` BOTH arms of which determine the returned value; every other `if`
+        # may only be the guard of an additional exit (a fast path: its body is a return, nothing is assigned) -
+        # those exits are decided one by one below
+        from ..cfg import ENTRY
+        main = [n for n in ifs if _value_on(fi, fn, n, True, _D2_ALLOW) is not None and _value_on(fi, fn, n, False, _D2_ALLOW) is not None]
+        others = [n for n in ifs if not any(n is m for m in main)]
+
+        def exit_guard(n):
+            body = [x for x in n.body if not isinstance(x, (ast.Expr, ast.Pass))]
+            return not n.orelse and len(body) == 1 and isinstance(body[0], ast.Return) and body[0].value is not None
+        if len(main) == 1 and all(exit_guard(n) for n in others) and not any(_inside(n, main[0]) for n in others):
+            extra_exits = [r for r in returns_of(fn) if not _inside(r, main[0]) and fi.cfg.reachable(ENTRY, r, avoiding=[main[0]])]
+            ifs = main
     if len(ifs) == 1:
         node = ifs[0]
         site = node
@@ -936,20 +1115,35 @@ def d2_partition(ck):
             ck.check(ct(ks[f]) == ct(kr[f]), rule + '.siblings', mod, site, F,
                      '%s: %s / %s' % (f, ct(ks[f]), ct(kr[f])),
                      'identical in both branches', 'field `%s` differs between the rectangular and ragged branch' % f)
-    ci = ks.get('center_indices')
-    ok = False
-    if _is_call_to(ci, 'partition_indices'):
-        b = _bind(ci, params(ck.repo.mod(RA).func('partition_indices')))
-        pi_params = params(ck.repo.mod(RA).func('partition_indices'))
-        ok = b is not None and len(b) == 2 and ct(b.get(pi_params[0])) == 'self.center_indices' and ct(b.get(pi_params[1])) == L
-    _three(ck, ok, ci if _is_call_to(ci, 'partition_indices') else None, scope | {'ra'}, rule + '.indices', mod, site, F, ct(ci),
-           'centre indices converted with the same lengths',
-           'center_indices must be partition_indices(self.center_indices, lengths)', allow=_D2_ALLOW)
-    ctr = ks.get('centers')
-    # positively wrong: another attribute of self / a constant; anything else (a copy, a view) is not decided
-    ctr_wrong = (isinstance(ctr, ast.Attribute) and ct(ctr) != 'self.centers' and ct(ctr.value) == 'self') or isinstance(ctr, ast.Constant)
-    _three(ck, ct(ctr) == 'self.centers', ctr if ctr_wrong else None, scope, rule + '.centers', mod, site, F,
-           ct(ctr), 'centres passed through', 'centres must be passed through unchanged')
+    pi_params = params(ck.repo.mod(RA).func('partition_indices'))
+
+    def indices_field(ci, at):
+        """center_indices of a result: partition_indices(self.center_indices, lengths).  Positively wrong: that call
+        with other operands, or a value-keeping pass-through (the attribute itself, a copy / view / list of it, a
+        constant): the FLAT indices (or another field) are handed on where (trajectory, frame) pairs are due."""
+        ok = False
+        if _is_call_to(ci, 'partition_indices'):
+            b = _bind(ci, pi_params)
+            ok = b is not None and len(b) == 2 and ct(b.get(pi_params[0])) == 'self.center_indices' and ct(b.get(pi_params[1])) == L
+        core = _value_core(ci) if ci is not None else None
+        flat = core is not None and (isinstance(core, ast.Constant) or
+                                     (isinstance(core, ast.Attribute) and ct(core.value) == 'self'))
+        detail = 'center_indices must be partition_indices(self.center_indices, lengths)'
+        if flat and not ok:
+            detail += (': `%s` passes %s through, so the partitioned result carries flat integers instead of the (trajectory, frame) '
+                       'pairs that address the same frames' % (ct(ci), ct(core)))
+        _three(ck, ok, ci if (_is_call_to(ci, 'partition_indices') or flat) else None, scope | {'ra'}, rule + '.indices', mod, at, F,
+               'center_indices=%s' % ct(ci) if at is not site else ct(ci),
+               'centre indices converted with the same lengths', detail, allow=_D2_ALLOW)
+
+    def centers_field(ctr, at):
+        # positively wrong: another attribute of self / a constant; anything else (a copy, a view) is not decided
+        ctr_wrong = (isinstance(ctr, ast.Attribute) and ct(ctr) != 'self.centers' and ct(ctr.value) == 'self') or isinstance(ctr, ast.Constant)
+        _three(ck, ct(ctr) == 'self.centers', ctr if ctr_wrong else None, scope, rule + '.centers', mod, at, F,
+               ct(ctr), 'centres passed through', 'centres must be passed through unchanged')
+
+    indices_field(ks.get('center_indices'), site)
+    centers_field(ks.get('centers'), site)
     pl_params = params(ck.repo.mod(RA).func('partition_list'))
     ra_params = [p for p in params(ck.repo.mod(RA).func('RaggedArray.__init__')) if p != 'self']
     helpers = {'ra'}
@@ -993,6 +1187,38 @@ def d2_partition(ck):
             _three(ck, ok_rg, b_dec, scope | helpers, rule + '.ragged', mod, site, F, '%s=%s' % (f, ct(b)),
                    'ragged branch: RaggedArray(self.%s, lengths=lengths)' % f,
                    'ragged branch must wrap self.%s with lengths=lengths' % f, allow=_D2_ALLOW)
+
+    # --- every additional way out (fast path) is an exit of the same contract: a ClusterResult whose centre indices
+    #     are converted, whose centres are passed through and whose data fields are one of the two accepted containers
+    #     of the same sources; a field the rule cannot relate to the result formula is not decided (never HOLDS)
+    for r in extra_exits:
+        val = xp(fi, r.value, _D2_ALLOW)
+        if not _is_call_to(val, 'ClusterResult'):
+            ck.missing(rule + '.exits', 'the additional exit at %s does not return a ClusterResult(...): %s' % (mod.loc(r), u(val)[:120]))
+            continue
+        ke = _bind(val, fields)
+        if ke is None or set(ke) != set(fields):
+            ck.missing(rule + '.exits', 'fields of the ClusterResult returned by the additional exit at %s' % mod.loc(r))
+            continue
+        pc = guard_atoms(mod, fn, fi, r, fn)
+        cond = ' and '.join(atom_text(a) for a in pc) if pc else '<condition not understood>'
+        indices_field(ke.get('center_indices'), r)
+        centers_field(ke.get('centers'), r)
+        for f in ('assignments', 'distances'):
+            a = ke.get(f)
+            if ct(a) == ct(ks.get(f)) or ct(a) == ct(kr.get(f)):
+                # the container of one main branch: which one is due depends on the guard, which this rule does not relate
+                # to the all-lengths-equal decision
+                ck.missing(rule + '.exits', 'additional exit at %s (when %s) builds `%s` as one main branch does; its guard is not '
+                           'related to the rectangular/ragged decision' % (mod.loc(r), cond[:100], f))
+                continue
+            pl = square_shape(a)
+            if pl is not None or _is_call_to(a, 'RaggedArray'):
+                _three(ck, False, a, scope | helpers, rule + '.exits', mod, r, F, '%s=%s' % (f, ct(a)), '',
+                       'the additional exit (when %s) must split self.%s by lengths like the main branches' % (cond[:100], f), allow=_D2_ALLOW)
+                continue
+            ck.missing(rule + '.exits', 'additional exit at %s (when %s): `%s=%s` is not related to the result formula of the main '
+                       'branches' % (mod.loc(r), cond[:100], f, ct(a)[:100]))
 
 
 # ---------------------------------------------------------------------------
